@@ -1400,3 +1400,5 @@ MANIFEST = {
             "(AttributeError), clip(..., out=ndarray) with both bounds (read-only error). Calls NumPy itself rejects are outside "
             "the quantifier and only counted.",
 }
+
+MANIFEST_ADDENDUM = "Generator additions: operands and out= targets that are tensor views reached through a layout-dependent reshape of a Fortran-ordered base; dtype= together with where= and/or out=; tensor-valued where masks; exponents of one element in 0..3 dimensions; Tensor.__pow__'s value-dependent routing is attributed by intervention (the failure vanishes through mg.power)."
